@@ -168,6 +168,8 @@ pub struct OpRecord {
     pub ret: u64,
     pub cap_hit: bool,
     pub faults_fired: usize,
+    /// seam-event kinds at which injected unwinds fired
+    pub fired_at: Vec<u8>,
     /// the operation ran on a sampler that was restored from its durable form
     pub on_restored: bool,
     pub trace: Option<Vec<ctx::Ev>>,
@@ -245,6 +247,7 @@ fn exec_on(envs: &[Arc<Env>], e: usize, cs: &mut ClientState, op: &Op, record_tr
             ret: 0,
             cap_hit: false,
             faults_fired: 0,
+            fired_at: vec![],
             on_restored: false,
             trace: None,
         });
@@ -375,6 +378,7 @@ fn exec_on(envs: &[Arc<Env>], e: usize, cs: &mut ClientState, op: &Op, record_tr
         ret: 0,
         cap_hit: st.cap_hit,
         faults_fired: st.fired.len(),
+        fired_at: st.fired.iter().map(|(_, _, k)| *k).collect(),
         on_restored,
         trace: st.trace,
     }
@@ -412,6 +416,12 @@ pub struct RunStats {
     pub ops_over_ref_events: u64,
     pub extreme_points: u64,
     pub ops_on_second_sampler: u64,
+    pub unwind_at_arith: u64,
+    pub unwind_at_rng: u64,
+    pub unwind_at_log: u64,
+    pub unwind_at_debug_fmt: u64,
+    pub bursts: u64,
+    pub burst_calls: u64,
 }
 
 pub struct RunReport {
@@ -852,6 +862,18 @@ pub fn run_scenario(sc: &Scenario, opts: &RunOpts) -> RunReport {
             }
             if op.strip().0 == 1 {
                 stats.ops_on_second_sampler += 1;
+            }
+            for k in &r.fired_at {
+                match *k {
+                    ctx::kind::RNG => stats.unwind_at_rng += 1,
+                    ctx::kind::LOG => stats.unwind_at_log += 1,
+                    ctx::kind::DEBUG_FMT => stats.unwind_at_debug_fmt += 1,
+                    _ => stats.unwind_at_arith += 1,
+                }
+            }
+            if let Op::Burst { n, .. } = op.strip().1 {
+                stats.bursts += 1;
+                stats.burst_calls += *n;
             }
             classify(&mut stats, &r.outcome);
             digest = mix(digest, hash_str(&format!("{:?}", r.outcome)));
